@@ -3,7 +3,7 @@
    offsets delimit exactly acompose a. *)
 From Coq Require Import List NArith Bool Arith.
 Import ListNotations.
-Require Import V.Regex V.Parse V.ParseProofs V.Auth V.AuthProofs V.Splice V.Setters V.AuthMut V.AuthMutProofs.
+Require Import V.Regex V.Parse V.ParseProofs V.Auth V.AuthProofs V.Splice V.Setters V.AuthMut V.AuthMutProofs V.AuthValues V.AuthMutProofs2.
 Local Open Scope nat_scope.
 
 (* under the invariant the handle views exactly the authority text (reads through the handle are coherent) *)
@@ -18,6 +18,24 @@ Theorem C11_set_host : forall h a before after new, Inv h a before after -> wf_a
   exists h', set_host h new = Some h' /\ Inv h' (with_host a new) before after.
 Proof. exact set_host_spec. Qed.
 Print Assumptions C11_set_host.
+
+(* set_userinfo (replace / insert "user@" / remove / no-op) and set_port (replace / insert ":port" / remove / no-op) *)
+Theorem C11_set_userinfo : forall h a before after new, Inv h a before after -> wf_aparts_s a ->
+  exists h', set_userinfo h new = Some h' /\ Inv h' (with_userinfo a new) before after.
+Proof. exact set_userinfo_spec. Qed.
+Print Assumptions C11_set_userinfo.
+Theorem C11_set_port : forall h a before after new, Inv h a before after -> wf_aparts a ->
+  exists h', set_port h new = Some h' /\ Inv h' (with_port a new) before after.
+Proof. exact set_port_spec. Qed.
+Print Assumptions C11_set_port.
+
+(* ANY finite history of set_userinfo / set_host / set_port calls through ONE handle, with delimiter-valid
+   arguments: no call panics, `before` and `after` never change, the handle ends up viewing exactly the
+   authority with the sub-components updated in order -- i.e. as if each call had a fresh handle *)
+Theorem C11_history : forall ops h a before after, Inv h a before after -> wf_aparts_s a -> Forall aarg_ok ops ->
+  exists h', arun ops h = Some h' /\ Inv h' (fold_left aupdate ops a) before after /\ view h' = acompose (fold_left aupdate ops a).
+Proof. exact history. Qed.
+Print Assumptions C11_history.
 
 (* non-vacuity and the two other editors on a concrete history through ONE handle:
    s://u@h:1/p  --set_userinfo(longer-user)--> --set_host([::1])--> --set_port(None)--> *)
